@@ -318,11 +318,6 @@ func c09shiftModel(cc *Ctx, rule, ruleState string) {
 				c.OK(rule, cons, pos, "equals the %s shift %s as a rational term in (X, Y, Z) and the stored parameters", dcase.what, match)
 			}
 		}
-		for _, s := range sp {
-			if found[s.name] == nil {
-				c.Bad(rule, "proj#shift("+dcase.what+", "+s.name+")", token.NoPos, "no function of the package computes the %s shift %s (one datum and three ordinates in, three out, equal to the Helmert formula as a rational term)", dcase.what, s.name)
-			}
-		}
 	}
 	m.it.stub = plain
 	// ---- the whole shift, as one identity.  The outermost function of two datums and three
